@@ -4,10 +4,15 @@ from harness import components as hc
 
 def run(run):
     hc.pair_helpers(run, clauses=['table', 'name', 'duals'], label='pair-helpers-tables')
-    run.obligations += 0
+    from harness import models
+    n = 22 if run.tier == 'quick' else 110
+    hc.solve_scenarios(run, 'C17', [('dual_tables', (name, seed)) for (name, seed) in models.programs(run.seed, n)], 'rt-solve-dual-tables',
+                       'after a real solve of seeded programs over 11 templates: for every leaf function each per-condition table is a table with one column per '
+                       'sample, the dual table has the same shape and its (i,j) cell is the multiplier of the constraint in that cell (0 elsewhere), every class '
+                       'constraint sits in a table cell and has a name')
 
 
 def replay(rec, path):
     if rec.get('kind') == 'pairs-case':
         return hc.replay_pairs(rec, 'C17', path)
-    return 0
+    return hc.replay_scenario(rec, 'C17', path)
